@@ -100,6 +100,20 @@ def env_atoms(desc, host_atoms):
             info.append({"kind": "wat", "input": "HOH", "position": None,
                          "chain": "W", "res_seq": wnum})
             wnum += 1
+        elif kind == "clashheavy":
+            # water oxygen 1.0 A beyond the template position of a heavy atom
+            # that is omitted from the input and will be rebuilt
+            if hfull is None:
+                hfull = host_with_h(desc["x"], desc["pos"])
+            a = _find(hfull, ti, dev[1])
+            tmpl = T.expected_topology(desc["x"], desc["pos"])
+            parent = _find(hfull, ti, tmpl.atoms[dev[1]].bonds[0])
+            u = a["xyz"] - parent["xyz"]
+            xyz = a["xyz"] + 1.0 * u / np.linalg.norm(u)
+            extra.append(build.water(xyz, wnum))
+            info.append({"kind": "wat", "input": "HOH", "position": None,
+                         "chain": "W", "res_seq": wnum})
+            wnum += 1
         elif kind == "water":
             _k, tname, di, d = dev
             t = _find(host_atoms, ti, tname)
@@ -166,6 +180,8 @@ def build_case(desc):
     rejected."""
     if "window" in desc:
         return build_window(desc)
+    if "gap" in desc:
+        return build_gap(desc)
     d = dict(desc)
     omit = {}
     for dev in desc.get("env", []):
@@ -448,3 +464,41 @@ def build_window(desc):
                      "position": "n" if j == 0 else "c" if j == k - 1 else "mid",
                      "chain": "A", "res_seq": seq, "target": j == k // 2})
     return build.pdb_text(atoms), info, atoms
+
+
+def build_gap(desc):
+    """One chain (same id, no TER, no OXT at the break) with a geometric gap:
+    ALA-ALA-GLY ... x-ALA-ALA, the second part 12 A away, numbering 1-3, 7-9."""
+    x = desc["gap"]
+    a = build.build_peptide(["ALA", "ALA", "GLY"], oxt=False, start=1)
+    b = build.build_peptide([x, "ALA", "ALA"], start=7,
+                            origin=(0.0, 12.0, 0.0))
+    for at in b:
+        at["res_idx"] += 3
+    atoms = a + b
+    info = []
+    for i, (name, seq) in enumerate(zip(["ALA", "ALA", "GLY", x, "ALA", "ALA"],
+                                        [1, 2, 3, 7, 8, 9])):
+        info.append({"kind": "aa", "input": name,
+                     "position": "n" if i == 0 else "c" if i == 5 else "mid",
+                     "chain": "A", "res_seq": seq, "target": i == 3})
+    return build.pdb_text(atoms, ter=False), info, atoms
+
+
+def gap_cases(ff, opts=("default",)):
+    return [{"gap": x, "ff": ff, "opt": o, "env": []}
+            for o in opts for x in T.AMINO]
+
+
+def rebuilt_clash_cases(ff, names=None):
+    """2 deviations: a truncated side chain plus a water sitting on the
+    position where the farthest omitted atom will be rebuilt (the rebuilt
+    atom clashes, so the residue is debumped before AND after hydrogens are
+    added)."""
+    out = []
+    for x in (names or T.AMINO):
+        for pos in corpus.POSITIONS:
+            for sfx in suffixes(x, pos):
+                out.append({"x": x, "pos": pos, "ff": ff, "opt": "default",
+                            "env": [["omit", sfx], ["clashheavy", sfx[-1]]]})
+    return out
